@@ -101,6 +101,18 @@ def gen_buzzer() -> str:
     return "\n".join(lines)
 
 
+def gen_ops() -> str:
+    """the transpiler's operator tables `_BIN`, `_UN`, `_CMP`, keyed by the name of the `ast` operator class, in table order"""
+    import importlib
+    pa = importlib.import_module("Reduino.transpile.parser")
+    pair = lambda kv: "(" + lstr(kv[0].__name__) + ", " + lstr(kv[1]) + ")"
+    lines = ["namespace Reduino.Gen.Ops", ""]
+    for name, table in (("bin", pa._BIN), ("un", pa._UN), ("cmp", pa._CMP)):
+        lines.append(f"def {name} : List (String × String) := {llist(list(table.items()), pair)}")
+    lines += ["", "end Reduino.Gen.Ops", ""]
+    return "\n".join(lines)
+
+
 def probe_bindings(max_shapes=None):
     """black-box table of what the transpiler does with every call shape Python accepts (C08):
     [(cls, meth, params, [(npos, kws, outcome, unseen)])] — outcome 'reject' | 'ok'; `unseen` = provided parameters whose
@@ -168,7 +180,7 @@ def gen_bind() -> str:
     return "\n".join(lines)
 
 
-GENERATORS = {"Host": gen_host, "Pio": gen_pio, "Buzzer": gen_buzzer, "Bind": gen_bind}
+GENERATORS = {"Host": gen_host, "Pio": gen_pio, "Buzzer": gen_buzzer, "Bind": gen_bind, "Ops": gen_ops}
 # generators that are slow (they probe the transpiler) run only for the checks that need them, and in setup
 NEEDS = {"Bind": {"C08"}}
 
